@@ -384,6 +384,22 @@ class AsyncSrcAsend(AsyncSrc):
         return await self.__anext__()
 
 
+class AsyncSrcLazy(AsyncSrc):
+    """An async *iterator* doing its set-up when ``__aiter__`` is asked for (positioning a cursor, opening a feed)
+    and returning itself: iterating it without having called ``__aiter__`` is a protocol breach of the caller."""
+
+    ready = False
+
+    def __aiter__(self) -> "AsyncSrcLazy":
+        self.ready = True
+        return self
+
+    def __anext__(self) -> Any:  # type: ignore[override]
+        if not self.ready:
+            CTX.foreign.append(f"source {self.st.sid} was advanced although its __aiter__ had never been called")
+        return AsyncSrc.__anext__(self)
+
+
 class _FutureLikeStep:
     """What ``AsyncSrcFuture.__anext__`` hands out: an awaitable that is not a coroutine.
 
@@ -462,7 +478,7 @@ async def _async_gen(st: SrcState):
 
 FLAVOURS_SYNC = ("list", "tuple", "getitem_seq", "sync_iter", "sync_gen")
 FLAVOURS_ASYNC = ("async_gen", "async_class", "async_class_bare", "async_class_full", "async_class_asend",
-                  "async_class_future", "async_class_proxy")
+                  "async_class_future", "async_class_proxy", "async_class_lazy")
 FLAVOURS = FLAVOURS_SYNC + FLAVOURS_ASYNC
 
 
@@ -493,6 +509,8 @@ def make_source(st: SrcState, flavour: str) -> Any:
         return AsyncSrcFuture(st)
     if flavour == "async_class_proxy":
         return AsyncSrcProxy(st)
+    if flavour == "async_class_lazy":
+        return AsyncSrcLazy(st)
     raise ValueError(flavour)
 
 
